@@ -100,6 +100,9 @@ func (Engine) Generate(r *simcore.RNG, tier string, idx int) *simcore.Plan {
 	p := &simcore.Plan{Config: map[string]int64{}}
 	c := p.Config
 	faults := idx%2 == 1
+	if idx%4 == 3 {
+		p.Config["spec"] = 60 + int64(idx/4%5)*60 // permille of blocks first executed speculatively on a discarded branch (simchain.Node.Spec)
+	}
 	c["accts"] = r.Range(2, 4)
 	c["vals"] = r.Range(1, 3)
 	c["edur"] = edurs[r.Intn(len(edurs))]
@@ -217,7 +220,7 @@ func (Engine) Generate(r *simcore.RNG, tier string, idx int) *simcore.Plan {
 	}
 	for left > 0 {
 		st := simcore.Step{}
-		switch r.Weighted([]int{35, 12, 10, 10, 14, 5, 4, 5}) {
+		switch r.Weighted([]int{35, 12, 10, 10, 14, 5, 4, 5, 4}) {
 		case 0: // to the end of the current epoch -1/0/+1/+2 ns
 			off := []int64{-1, 0, 1, 1, 1, 2}[r.Intn(6)]
 			st.Op, st.A = "tick", []int64{1, r.Range(1, 999), off}
@@ -246,6 +249,10 @@ func (Engine) Generate(r *simcore.RNG, tier string, idx int) *simcore.Plan {
 				continue
 			}
 			st.Op, st.A = "restart", []int64{r.Range(1, 3000)}
+		case 8:
+			// governance changes the distribution records during the run: the incremental door (update: add, re-weigh,
+			// remove by weight 0) or the wholesale one (replace)
+			st.Op, st.A = "distr", []int64{r.Range(0, 3), r.Range(0, 3), []int64{0, 0, 1, 7, 300, 1000}[r.Intn(6)], r.Range(0, 3), []int64{0, 1, 50, 999}[r.Intn(4)]}
 		}
 		if faults && (st.Op == "send" || st.Op == "fund") && r.Chance(0.25) {
 			if r.Chance(0.4) {
@@ -298,6 +305,7 @@ type world struct {
 	ngauges    int
 	hasRecords bool
 	hasRec0    bool
+	weights    map[uint64]int64 // distribution records as the history of governance changes leaves them
 
 	aFee, aDistr, aPI, aInc, aMint, aVest string
 
@@ -481,6 +489,12 @@ func (Engine) Execute(run *simcore.Run) {
 			tg.Basedenom = denom
 			gs[txfeestypes.ModuleName] = cdc.MustMarshalJSON(&tg)
 		}})
+	n.Spec = run.Plan.Cfg("spec", 0)
+	defer func() {
+		for i := 0; i < n.Specs; i++ {
+			run.Fault("speculative-block-discarded")
+		}
+	}()
 	w.n = n
 	w.aFee, w.aDistr, w.aPI = modAddr(authtypes.FeeCollectorName), modAddr(distrtypes.ModuleName), modAddr(poolincentivestypes.ModuleName)
 	w.aInc, w.aMint, w.aVest = modAddr(incentivestypes.ModuleName), modAddr(minttypes.ModuleName), modAddr(minttypes.DeveloperVestingModuleAcctName)
@@ -510,6 +524,7 @@ func (Engine) Execute(run *simcore.Run) {
 		}
 	}
 	w.ngauges = ng
+	w.weights = map[uint64]int64{}
 	var recs []poolincentivestypes.DistrRecord
 	if v := p.Cfg("rec0", 0); v > 0 {
 		recs = append(recs, poolincentivestypes.DistrRecord{GaugeId: 0, Weight: osmomath.NewInt(v)})
@@ -535,6 +550,9 @@ func (Engine) Execute(run *simcore.Run) {
 			panic(fmt.Sprintf("setup: distribution records: %v", err))
 		}
 		w.hasRecords = true
+		for _, r := range recs {
+			w.weights[r.GaugeId] = r.Weight.Int64()
+		}
 	}
 	w.cur = w.snapshot(n.Ctx) // gauges now exist
 
@@ -592,6 +610,47 @@ func (Engine) Execute(run *simcore.Run) {
 				return
 			}
 			run.Event("restart", "ok")
+		case "distr":
+			var recs []poolincentivestypes.DistrRecord
+			g1, g2 := uint64(st.Arg(1))%uint64(w.ngauges+1), uint64(st.Arg(3))%uint64(w.ngauges+1)
+			recs = append(recs, poolincentivestypes.DistrRecord{GaugeId: g1, Weight: osmomath.NewInt(st.Arg(2))})
+			if st.Arg(0) >= 2 && g2 != g1 {
+				recs = append(recs, poolincentivestypes.DistrRecord{GaugeId: g2, Weight: osmomath.NewInt(st.Arg(4))})
+				sort.Slice(recs, func(i, j int) bool { return recs[i].GaugeId < recs[j].GaugeId })
+			}
+			replace := st.Arg(0) == 3
+			cctx, write := n.Ctx.CacheContext()
+			var err error
+			if replace {
+				err = n.App.PoolIncentivesKeeper.ReplaceDistrRecords(cctx, recs...)
+			} else {
+				err = n.App.PoolIncentivesKeeper.UpdateDistrRecords(cctx, recs...)
+			}
+			if err != nil {
+				run.Event("distr", "refused")
+				run.Logf("%d distr %v -> refused: %v", i, st.A, err)
+				continue
+			}
+			write()
+			if replace {
+				w.weights = map[uint64]int64{}
+			}
+			for _, r := range recs {
+				if r.Weight.IsZero() {
+					if _, had := w.weights[r.GaugeId]; had && !replace {
+						run.Probe("distribution-record-removed-by-zero-weight-update")
+					}
+					delete(w.weights, r.GaugeId)
+				} else {
+					w.weights[r.GaugeId] = r.Weight.Int64()
+				}
+			}
+			w.hasRec0 = w.weights[0] > 0
+			w.hasRecords = len(w.weights) > 0
+			run.Event("distr", "ok")
+			run.Probe("distribution-records-changed-by-governance")
+			run.Logf("%d distr %v replace=%v -> weights %v", i, st.A, replace, w.weights)
+			w.cur = w.snapshot(n.Ctx)
 		case "send", "fund":
 			from := n.Accts[int(st.Arg(0))%accts]
 			bal := n.Balance(n.Ctx, from, denom)
